@@ -821,6 +821,29 @@ func (x *Exec) callWithContract(fu *FuncUnit, uc *UnitContract, recv *Value, arg
 	if uc.Trusted {
 		x.trustedUsed[uc.ID()] = true
 	}
+	// ghost variables of the callee: initialised ones start at their initial value, the others are
+	// existential for the caller (a requires clause mentioning one is assumed, not checked: listed as abstracted)
+	ghostFree := map[string]bool{}
+	for _, gv := range uc.Ghosts {
+		if gv.Init != nil {
+			x.specDepth++
+			sp.bound[gv.Name] = x.convertTo(x.eval(gv.Init, st, sp), ghostType(gv.Sort))
+			x.specDepth--
+		} else {
+			sp.bound[gv.Name] = x.freshValue("ghost:"+fu.Name+"."+gv.Name, ghostType(gv.Sort), st)
+			ghostFree[gv.Name] = true
+		}
+	}
+	mentionsFreeGhost := func(e ast.Expr) bool {
+		found := false
+		ast.Inspect(e, func(n ast.Node) bool {
+			if id, ok := n.(*ast.Ident); ok && ghostFree[id.Name] {
+				found = true
+			}
+			return !found
+		})
+		return found
+	}
 	savedInfo, savedPkg := x.info, x.pkg
 	x.pkg = fu.Pkg.Types
 	defer func() { x.info, x.pkg = savedInfo, savedPkg }()
@@ -829,6 +852,11 @@ func (x *Exec) callWithContract(fu *FuncUnit, uc *UnitContract, recv *Value, arg
 			continue
 		}
 		g := x.specBool(r, st, sp)
+		if mentionsFreeGhost(r.Expr) {
+			x.abstract("precondition " + r.Name + " of " + fu.Name + " quantifies over a ghost witness: assumed at the call site, not checked")
+			x.assume(st, g, "ghost-pre:"+fu.Name+"."+r.Name)
+			continue
+		}
 		x.assert(st, g, "call-pre", fmt.Sprintf("%s/call-pre:%s.%s@%d", x.uc.ID(), fu.Name, r.Name, ord), r.Tags, e.Pos(), "precondition of "+fu.Name+": "+r.Text)
 	}
 	oldSt := st.clone()
@@ -879,6 +907,11 @@ func (x *Exec) callWithContract(fu *FuncUnit, uc *UnitContract, recv *Value, arg
 					k++
 				}
 			}
+		}
+	}
+	for _, gv := range uc.Ghosts {
+		if gv.Init != nil {
+			sp.bound[gv.Name] = x.freshValue("ghost:"+fu.Name+"."+gv.Name, ghostType(gv.Sort), st)
 		}
 	}
 	for _, en := range uc.Ensures {
